@@ -121,12 +121,14 @@ Lemma x_update ti tm p q (s s' : vsock) :
   rx_inv (v_rx s') ->
   tx_inv ti tm (v_tx s') -> ring (v_tx s') = ring (v_tx s) -> g_removed (v_tx s') = g_removed (v_tx s) ->
   v_opts s' = v_opts s -> v_state s' = v_state s -> v_segs s' = v_segs s -> ss_ok (v_ss s') ->
+  min_ss (v_ss s) <= min_ss (v_ss s') ->
   v_rtte s' = v_rtte s -> v_recovery s' = v_recovery s -> v_now s' = v_now s ->
   vs_x ti tm p q s'.
 Proof.
   unfold vs_x, vs_inv_p, ring_rel, sx.
-  intros ((I1 & I2 & I3 & I4 & (R0 & R1 & R2 & R3) & I6 & I7 & I8) & A1 & A2) Hrx Htx Hring Hgr Ho Hst Hsg Hss Hrt Hrc Hnow.
-  rewrite Hring, Hgr, Ho, Hst, Hsg, Hrt, Hrc, Hnow. tauto.
+  intros ((I1 & I2 & I3 & I4 & (R0 & R1 & R2 & R3) & I6 & I7 & I8) & A1 & A2) Hrx Htx Hring Hgr Ho Hst Hsg Hss Hmin Hrt Hrc Hnow.
+  rewrite Hring, Hgr, Ho, Hst, Hsg, Hrt, Hrc, Hnow.
+  pose proof (aux_mono _ _ _ _ Hmin A1). tauto.
 Qed.
 
 (* ------------------------------------------------------------------ the ACK part *)
@@ -143,7 +145,7 @@ Proof.
   destruct (remove_up_to_ack (v_segs s1) (v_now s1) (ch_ack h) (ch_sack h)) as [segs1 res] eqn:Er.
   destruct (remove_up_to_ack_inv _ _ _ _ _ _ I2 Er) as (J1 & B1 & B2 & O1 & L1 & C1).
   pose proof (remove_up_to_ack_zero _ _ _ _ _ _ Er) as Hz.
-  pose proof (remove_up_to_ack_aux q _ _ _ _ _ _ Er Haux) as Haux1.
+  pose proof (remove_up_to_ack_aux q _ _ _ _ _ _ _ Er Haux) as Haux1.
   pose proof (ps_remove _ _ _ _ _ _ _ Hps Er) as Hps1.
   (* the RTT sample *)
   assert (Hrt : exists rtte1,
@@ -174,7 +176,7 @@ Proof.
         by (intro Hc; specialize (R2 Hc); lia).
       assert (ss_offset segs2 <= g_removed (v_tx s1) + Z.of_nat (length (ring (v_tx s1)))) by lia.
       tauto.
-    - unfold sx. vsimpl. split; [eapply aux_ev; eauto|exact Hnow]. }
+    - unfold sx. vsimpl. split; [eapply aux_mono; [exact S3|]; eapply aux_ev; eauto|exact Hnow]. }
   split; [unfold acc_ok; auto|].
   split; [vsimpl; eapply ps_ev; [exact Hps1|exact Hlen|exact Un]|].
   split.
@@ -199,7 +201,7 @@ Proof.
   destruct (inv_parts _ _ _ _ Hinv) as (I1 & I2 & I3 & I4 & I5 & I6 & I7 & I8).
   unfold pim_data. destruct (Z.ltb_spec offset 0) as [Hneg|Hoff].
   { cbn [spx]. unfold data_post, force_immediate_ack. split; [reflexivity|].
-    split; [eapply x_update; [exact Hx|..]; vsimpl; auto|].
+    split; [eapply x_update; [exact Hx|..]; vsimpl; auto; try lia|].
     split; [unfold in_rel, emsg_free, ss_mono; vsimpl; repeat split; auto; try lia; try tauto|reflexivity]. }
   cbv zeta.
   destruct (rx_add_remove _ KData (m_payload m) offset) as [[rx1 ar] w] eqn:Erx. vsimpl.
@@ -208,7 +210,7 @@ Proof.
   destruct (delivered_ss_ok (v_ss s2) (Z.of_nat (length (m_payload m))) I6) as (S1 & S2 & S3).
   set (s4 := add_wakes _ _).
   assert (H4 : vs_x ti tm p q s4 /\ in_rel s2 s4 /\ v_segs s4 = v_segs s2).
-  { unfold s4, add_wakes. split; [eapply x_update; [exact Hx|..]; vsimpl; auto|].
+  { unfold s4, add_wakes. split; [eapply x_update; [exact Hx|..]; vsimpl; auto; try lia|].
     split; [|reflexivity]. unfold in_rel, emsg_free, ss_mono; vsimpl. repeat split; auto; try lia; try tauto. }
   clearbody s4. destruct H4 as (Hx4 & Hr4 & Hs4).
   destruct (add_err_cases a Na1 Na2) as [-> | ->]; [|cbn [spx allowed]; split; [exact I|eapply x_xe; exact Hx4]].
@@ -221,7 +223,7 @@ Proof.
                v_segs (force_immediate_ack s5) = v_segs s5).
   { unfold force_immediate_ack.
     destruct (inv_parts _ _ _ _ (proj1 Hx5)) as (K1 & K2 & K3 & K4 & K5 & K6 & K7 & K8).
-    split; [eapply x_update; [exact Hx5|..]; vsimpl; auto|].
+    split; [eapply x_update; [exact Hx5|..]; vsimpl; auto; try lia|].
     split; [|reflexivity]. unfold in_rel, emsg_free, ss_mono; vsimpl; repeat split; auto; try lia; try tauto. }
   destruct Hf as (Hxf & Hrf & Hsf).
   eapply spx_bind with (Q1 := fun s6 (_ : bool) =>
@@ -254,7 +256,7 @@ Proof.
   set (s5 := add_wakes _ _).
   assert (H5 : vs_x ti tm p q s5 /\ in_rel s2 s5 /\ v_segs s5 = v_segs s2).
   { unfold s5, add_wakes, force_immediate_ack.
-    split; [eapply x_update; [exact Hx|..]; vsimpl; auto|].
+    split; [eapply x_update; [exact Hx|..]; vsimpl; auto; try lia|].
     split; [exact (in_rel_refl s2)|reflexivity]. }
   destruct H5 as (Hx5 & Hr5 & Hs5).
   destruct (add_err_cases a Na1 Na2) as [-> | ->]; [|cbn [spx allowed]; split; [exact I|eapply x_xe; exact Hx5]].
@@ -262,7 +264,7 @@ Proof.
   destruct (mark_closed_fields _ _ _ Em) as (M1 & M2 & M3).
   cbn [spx]. unfold data_post. split; [reflexivity|].
   destruct (inv_parts _ _ _ _ (proj1 Hx5)) as (K1 & K2 & K3 & K4 & K5 & K6 & K7 & K8).
-  split; [unfold add_wakes; eapply x_update; [exact Hx5|..]; vsimpl; auto|].
+  split; [unfold add_wakes; eapply x_update; [exact Hx5|..]; vsimpl; auto; try lia|].
   split; [exact Hr5|exact Hs5].
 Qed.
 
@@ -349,7 +351,7 @@ Proof.
   intros [H1 [H2 H3]] E1 E2 E3 E4 E5 E6 E7 E8 Hst. split.
   - eapply inv_update; [exact H1|..]; rewrite ?E3, ?E4, ?E5, ?E6; try assumption; try reflexivity; try lia;
       apply (inv_parts _ _ _ _ H1).
-  - unfold sx. rewrite E3, E8. auto.
+  - unfold sx. rewrite E3, E4, E8. auto.
 Qed.
 
 Lemma x_update_segs ti tm p q (s s' : vsock) :
@@ -363,7 +365,7 @@ Proof.
   intros [H1 [H2 H3]] E1 E2 E3 E4 Hsi Hrm Hof Hev E5 E6 Hd E7. split.
   - eapply inv_update; [exact H1|..]; rewrite ?E4, ?E5, ?E6; try assumption; try reflexivity; try lia; auto;
       apply (inv_parts _ _ _ _ H1).
-  - unfold sx. rewrite E7. split; [eapply aux_ev; eauto|exact H3].
+  - unfold sx. rewrite E5, E7. split; [eapply aux_ev; eauto|exact H3].
 Qed.
 
 (* the FIN that the channel-closed arm of the loop may send must be pipe-safe too *)
@@ -578,7 +580,7 @@ Proof.
       cbn [spx].
       assert (Hx3 : vs_x ti tm 0 q (set_tx s2b tx1)) by (split; [exact Hinv3|exact (proj2 Hx2b)]).
       destruct (inv_parts _ _ _ _ Hinv3) as (K1 & K2 & K3 & K4 & K5 & K6 & K7 & K8). vsimpl.
-      split; [unfold add_wakes; eapply x_update; [exact Hx3|..]; vsimpl; auto|].
+      split; [unfold add_wakes; eapply x_update; [exact Hx3|..]; vsimpl; auto; try lia|].
       split; [unfold ef, emsg_free, add_wakes in *; vsimpl; exact Hef2b|].
       split; [eapply loop_rel_trans; [exact Hrel2|]; eapply loop_rel_trans; [exact Hrel2b|];
               unfold loop_rel, ss_mono, add_wakes; vsimpl; repeat (split; [reflexivity|]); lia|].
